@@ -347,6 +347,11 @@ def run(ctx):
                        'lists it emits are compared with the run-time `reserved_events` of the four classes',
                        'handler truthiness (`if handler:`) and the TypeError retry for legacy disconnect '
                        'handlers are not modelled: recording handlers accept any arguments'])
+    # the same table for the handler resolution inside the server-core model (K4) and the client
+    # model's registry (K7): Sio/Props/Glue.lean
+    C.audit_extra(ctx, 'Glue', ['server_reserved_eq', 'server_resolve_eq', 'step_invokes_dispatch',
+                                'step_invokes_table', 'server_reserved_never_catchall', 'client_reserved_eq',
+                                'client_resolve_eq', 'client_event_dispatch'])
     if gen_problem and 'Reserved.lean' in gen_problem:
         ctx.violation('proof', 'translator cannot read reserved_events: ' + gen_problem,
                       {'translator': gen_problem}, no_input=True)
